@@ -147,3 +147,34 @@ Theorem C19_noncascade_breaks :
   exists h o, DevInv h /\ ~ op_ok h o /\ ~ DevInv (fst (exec h o)) /\ check (fst (exec h o)) = [(3, 0, 0)].
 Proof. exact noncascade_breaks. Qed.
 Print Assumptions C19_noncascade_breaks.
+
+(* ---- shape edits after sharding (not in the property's op list; DESIGN reading decision made precise) ----
+   Value.shape = ... is modelled (OSetRank).  What the library keeps: everything except "axes inside the CURRENT
+   rank / distinct after normalisation", which it validates only at request time. *)
+
+(* The weak invariant DevInvW (specs target current inputs/outputs, configurations registered, num_shards >= 1,
+   devices in range, recorded axes pairwise distinct as written) holds along every history that also edits shapes
+   freely (ops_okW puts no condition on OSetRank).  DevInv implies DevInvW (Proofs.DevInv_weaken). *)
+Theorem C19_invW_reachable : forall ops h, DevInvW h -> ops_okW h ops -> DevInvW (run h ops).
+Proof. exact invW_reachable. Qed.
+Print Assumptions C19_invW_reachable.
+
+(* The full invariant survives a shape edit exactly under the condition one expects: the new rank still contains
+   the axes recorded for that value and keeps them distinct (setrank_ok; always true for "shape unknown":
+   Proofs3.setrank_ok_unknown).  With this clause ops_ok lets C19_inv_reachable range over shape edits too. *)
+Theorem C19_shape_edit_keeps_inv : forall h v r, DevInv h -> setrank_ok h v r -> DevInv (set_rank h v r).
+Proof. exact set_rank_inv. Qed.
+Print Assumptions C19_shape_edit_keeps_inv.
+
+(* On a DevInvW state the library's check can only complain about axes: out of range (7) or repeated (8). *)
+Theorem C19_check_weak : forall h, DevInvW h -> names_nonempty h -> Forall axis_err (check h).
+Proof. exact check_weak. Qed.
+Print Assumptions C19_check_weak.
+
+(* ... and it does: what happens to the recorded axes after an arbitrary shape edit is unspecified by the library
+   (witness: x of rank 2 sharded along -1 and 0, shape edited to rank 1 — both axes now denote axis 0). *)
+Theorem C19_shape_edit_unspecified :
+  exists h v r, DevInv h /\ ~ DevInv (set_rank h v r) /\ DevInvW (set_rank h v r)
+                /\ check (set_rank h v r) = [(8, 0, 0)].
+Proof. exact shape_edit_unspecified. Qed.
+Print Assumptions C19_shape_edit_unspecified.
